@@ -647,6 +647,10 @@ impl Real {
                     }
                 }
                 s.stray = files;
+                s.listed = Some(match tier.list() {
+                    Ok(v) => Ok(v.iter().map(|h| *h.as_bytes()).collect()),
+                    Err(e) => Err(e.to_string()),
+                });
                 s.len = s.held.len() as u64;
                 s.byte_count = 0;
                 s.pinned_count = tier.pinned_count() as u64;
@@ -694,6 +698,8 @@ pub struct Snapshot {
     pub stray: BTreeMap<String, Vec<u8>>,
     pub index: BTreeMap<u8, Desc>,
     pub index_debug: String,
+    /// disk: what `DiskTier::list()` returns (documented: all stored hashes, sorted)
+    pub listed: Option<Result<Vec<[u8; 32]>, String>>,
 }
 
 impl Snapshot {
@@ -977,6 +983,13 @@ impl RefCas {
         }
         if s.len != self.held.len() as u64 {
             return Some("len");
+        }
+        if let Some(l) = &s.listed {
+            let mut want: Vec<[u8; 32]> = self.held.keys().map(|i| hb(*i)).collect();
+            want.sort_unstable();
+            if l.as_ref().ok() != Some(&want) {
+                return Some("list");
+            }
         }
         if !subject.disk() {
             let bc: u64 = self.held.keys().map(|i| BLOBS[*i as usize].len() as u64).sum();
@@ -1355,7 +1368,7 @@ pub fn explore(r: &Report, subject: Subject, max_depth: usize, wit: &Witnesses) 
         |n: &Node, p: &[Op]| {
             // sequential, in merge order ⇒ deterministic choice of samples
             if let Some((op, obs)) = &n.last {
-                if p.len() >= 3 && sampled.fetch_add(1, Ordering::Relaxed) < 2 {
+                if p.len() >= 3 && sampled.fetch_add(1, Ordering::Relaxed) < 1 {
                     r.sample(json!({
                         "subject": t, "history": p.iter().map(|o| o.render()).collect::<Vec<_>>(),
                         "last_op": op.render(), "real_store_answered": obs.show(),
